@@ -98,6 +98,12 @@ ROLES = {
     "e": (0x65, lambda: [0x65, 0x61, 0x6F, 0x75, 0x69]),
     "acute": (0x301, lambda: [0x301, 0x300, 0x302, 0x303, 0x308]),
     "cedil": (0x327, lambda: [0x327, 0x328, 0x323]),
+    # a mark below that composes with nothing (NFC/NFKC quick check Yes, class 220): a composing mark behind it must reach the base across it
+    "vlb": (0x329, lambda: [0x329, 0x316, 0x317, 0x31C, 0x32A, 0x332]),
+    # a combining mark with NFC quick check No: its canonical decomposition is another mark (U+0341 -> U+0301, U+0340 -> U+0300, U+0343 -> U+0313)
+    "tone": (0x341, lambda: [0x341, 0x340, 0x343]),
+    # not width-mapped although on the page of the halfwidth / fullwidth forms
+    "ffun": (0xFFFD, lambda: [0xFFFD, 0xFFE7, 0xFFFC]),
     "NBSP": (0xA0, lambda: [0xA0]),
     "micro": (0xB5, lambda: [0xB5]),                      # Latin-1 compatibility characters (below U+00C0)
     "sup2": (0xB2, lambda: [0xB2, 0xB3, 0xB9]),
